@@ -492,6 +492,15 @@ func (vfs *MemFS) mkdirAll(path string, perm fs.FileMode) (again bool, err error
 	const op = "mkdir"
 
 	parent, child, pi, err := vfs.searchNode(path, slmEval)
+	if vfs.isNotExist(err) || err == vfs.err.TooManySymlinks {
+		// path itself may be a symbolic link that leads nowhere : the name exists and is not a directory.
+		if _, lc, _, lerr := vfs.searchNode(path, slmLstat); lerr == vfs.err.FileExists {
+			if _, ok := lc.(*symlinkNode); ok {
+				return false, &fs.PathError{Op: op, Path: path, Err: vfs.err.FileExists}
+			}
+		}
+	}
+
 	switch child.(type) {
 	case *dirNode:
 		if err != vfs.err.FileExists {
@@ -574,6 +583,15 @@ func (vfs *MemFS) OpenFile(name string, flag int, perm fs.FileMode) (avfs.File, 
 	fom := om
 	if flag&(os.O_WRONLY|os.O_RDWR) == 0 {
 		fom &^= avfs.OpenWrite
+	}
+
+	if om&avfs.OpenCreateExcl != 0 {
+		// with O_CREATE|O_EXCL a symbolic link as last element of name is not followed : the name exists.
+		if _, lc, _, lerr := vfs.searchNode(name, slmLstat); lerr == vfs.err.FileExists {
+			if _, ok := lc.(*symlinkNode); ok {
+				return (*MemFile)(nil), &fs.PathError{Op: op, Path: name, Err: vfs.err.FileExists}
+			}
+		}
 	}
 
 	parent, child, pi, err := vfs.searchNode(name, slmEval)
